@@ -1,7 +1,7 @@
 """Expression evaluation and condition refinement for sa/absint.py"""
 import ast
 
-from .lin import Lin, define
+from .lin import Lin, define, attach
 from .model import mangle
 from .values import *
 
@@ -320,7 +320,11 @@ class ExprMixin(object):
                                 nxt.append((vals + [v], s3))
                     accs = nxt
                 for (lo, hi, step), s2 in accs:
-                    out.append(self.do_slice(ctx, s2, base, lo, hi, step, node))
+                    r = self.do_slice(ctx, s2, base, lo, hi, step, node)
+                    if isinstance(r, list):
+                        out.extend(r)
+                    else:
+                        out.append(r)
             else:
                 for idx, s2 in self.ev(ctx, s, sl):
                     out.extend(self.do_index(ctx, s2, base, idx, node))
@@ -431,7 +435,19 @@ class ExprMixin(object):
         if isinstance(op, ast.Mod) and isinstance(a, VConst) and isinstance(a.v, (str, bytes)):
             return [(self.format_percent(ctx, st, a, b, node), st)]
         if isinstance(op, ast.Mod) and isinstance(a, (VBytes,)):
-            return [(VSym(fresh("fmt"), kind="bytes"), st)]
+            # dynamic format "%0" + str(N) + "x": at least N hex digits
+            from .prims import STRINT
+            t = a.t
+            try:
+                ok = t[0] == "cat" and t[2] == ("const", repr("x")) and t[1][0] == "cat" and t[1][1] == ("const", repr("%0")) and t[1][2] in STRINT
+            except Exception:
+                ok = False
+            if ok and self.as_lin(b) is not None:
+                N = STRINT[t[1][2]]
+                r = ("fmtx", N.key(), term_of(b))
+                define(("len", r), [Lin.sym(("len", r)) - N, Lin.sym(("len", r)) - 1])
+                return [(VBytes(r), st)]
+            return [(VSym(fresh("dynfmt"), kind="bytes"), st)]
         if isinstance(op, ast.Mult) and isinstance(a, VList) and lb is not None or isinstance(op, ast.Mult) and isinstance(b, VList) and la is not None:
             lst, n_ = (a, lb) if isinstance(a, VList) else (b, la)
             ln = st.heap_get(lst.oid, "len")
@@ -541,14 +557,17 @@ class ExprMixin(object):
                 lo_ok = st.entails_ge(la)
                 if lo_ok and st.entails_ge(Lin.const(mask) - la) and (mask & (mask + 1)) == 0:
                     return VInt(la), st
-                if mask == 0x7F and lo_ok and st.entails_ge(Lin.const(255) - la):
-                    if st.entails_ge(la - 128):
-                        return VInt(la - 128), st
-                if mask == 0x80 and lo_ok and st.entails_ge(Lin.const(255) - la):
-                    if st.entails_ge(la - 128):
-                        return VInt(128), st
-                    if st.entails_ge(Lin.const(127) - la):
-                        return VInt(0), st
+                if mask in (0x7F, 0x80) and lo_ok and st.entails_ge(Lin.const(255) - la):
+                    # la = 128*bit7 + low7 exactly, for la in 0..255
+                    k = ("bit7", la.key())
+                    K = Lin.sym(k)
+                    cons_ = [K, Lin.const(1) - K, la - K.scale(128), K.scale(128) + 127 - la]
+                    define(k, cons_)
+                    for s_ in la.co:
+                        attach(s_, cons_)
+                    if mask == 0x80:
+                        return VInt(K.scale(128)), st
+                    return VInt(la - K.scale(128)), st
                 r = ("and", la.key(), mask)
                 define(r, [Lin.sym(r), Lin.const(mask) - Lin.sym(r)])
                 if lo_ok:
@@ -637,11 +656,18 @@ class ExprMixin(object):
         define(("len", t), [blen - L])          # a slice is never longer than its base
         st = st.copy()
         lo_nonneg = st.entails_ge(lo_l)
+        r = VBytes(t)
         if hi_l is None:
             if lo_nonneg:
-                st.cons.add_ge(L - (blen - lo_l))
                 if st.entails_ge(blen - lo_l):
                     st.cons.add_eq(L - (blen - lo_l))
+                elif st.entails_ge(lo_l - blen):
+                    st.cons.add_eq(L)
+                else:
+                    # L = max(0, len - lo): case split
+                    a = st.assume_ge(blen - lo_l).assume_eq(L - (blen - lo_l))
+                    b = st.assume_ge(lo_l - blen - 1).assume_eq(L)
+                    return [(r, s_) for s_ in self.prune([a, b])]
             elif lo_l.is_const() and lo_l.c < 0:
                 st.cons.add_ge(Lin.const(-lo_l.c) - L)
         else:
@@ -652,20 +678,16 @@ class ExprMixin(object):
                     if st.entails_ge(blen - hi_l):
                         st.cons.add_eq(L - (hi_l - lo_l))
                     else:
-                        # L = min(hi, len) - lo : common constant lower bounds of hi and len carry over
-                        for c_ in (2, 1):
-                            if st.entails_ge(hi_l - lo_l - c_) and st.entails_ge(blen - lo_l - c_):
-                                st.cons.add_ge(L - c_)
-                                break
+                        # L = max(0, min(hi, len) - lo): case split
+                        a = st.assume_ge(blen - hi_l).assume_eq(L - (hi_l - lo_l))
+                        b = st.assume_ge(hi_l - blen - 1).assume_ge(blen - lo_l).assume_eq(L - (blen - lo_l))
+                        c = st.assume_ge(lo_l - blen - 1).assume_eq(L)
+                        return [(r, s_) for s_ in self.prune([a, b, c])]
                 else:
                     st.cons.add_ge(hi_l - L)      # still at most hi
             elif lo_nonneg and hi_l.is_const() and hi_l.c < 0 and lo_l.is_const() and lo_l.c == 0:
                 if st.entails_ge(blen + hi_l.c):
                     st.cons.add_eq(L - blen - hi_l.c)
-        r = VBytes(t)
-        if isinstance(base, VSym) and base.kind != "bytes":
-            # slicing something of unknown type: could be a list / str; keep it bytes-like
-            pass
         return r, st
 
     def do_index(self, ctx, st, base, idx, node):
@@ -875,6 +897,10 @@ class ExprMixin(object):
         if isinstance(v, VConst):
             return ([st], []) if v.v is None else ([], [st])
         if isinstance(v, VSym):
+            if v.t and v.t[0] == "global" and len(v.t) == 3:
+                node = self.p.modules[v.t[1]].globals.get(v.t[2])
+                if node is not None and not (isinstance(node, ast.Constant) and node.value is None) and not self.global_writers.get((v.t[1], v.t[2])):
+                    return [], [st]      # module constant bound to a non-None expression
             fs = st.facts(v.t)
             if ("none", True) in fs:
                 return [st], []
